@@ -46,7 +46,8 @@ ASSUMPTIONS = [
     "the from-mortar matrices",
 ]
 BOUNDS = {
-    "quick": "bases frac2d(2x2), immersed2d, simplex2d, t2d, frac3d(simplex): depth 2",
+    "quick": "bases frac2d(2x2), immersed2d, simplex2d, t2d, frac3d(simplex), tilted (hand-built two-sided 2-d mortar "
+    "in a dipping plane, 7 triangulations incl. reversed node numbering, both sign combinations of the normals): depth 2",
     "thorough": "same bases plus frac2d_4x2: depth 3 (frac3d: depth 2)",
 }
 MIN_CLASSES = 4
@@ -89,6 +90,9 @@ def cases(tier):
     for base, depth in plan:
         for op in _ops(base):
             out.append({"base": base, "first": op, "depth": depth})
+    # hand-built two-sided 2-d mortar grid in a dipping plane (see "tilted" below)
+    for op in _tilted_ops():
+        out.append({"base": "tilted", "first": op, "depth": 2 if tier == "quick" else 3})
     return out
 
 
@@ -354,8 +358,196 @@ class _St:
     pass
 
 
+# ------------------------------------------------------------------ tilted 2-d interface
+# A two-sided 2-d MortarGrid built by hand on the rectangle [0,2]x[0,1] of a dipping plane
+# (generic tilt, not parallel to any coordinate plane).  The triangulations differ in
+# resolution, grading and node numbering (x -> 2-x and/or y -> 1-y reverses the numbering and
+# the orientation of the triangles), so that the normal vectors which match_2d computes for
+# the two grids of a pair come out with equal and with opposite sign.
+
+_TA, _TB = 0.4, 1.0
+_E1 = np.array([np.cos(_TA), np.sin(_TA), 0.0])
+_E2 = np.array([-np.sin(_TA) * np.cos(_TB), np.cos(_TA) * np.cos(_TB), np.sin(_TB)])
+_ORIG = np.array([0.3, -0.2, 0.7])
+
+# variant -> ((nx, ny), exponent x, exponent y, flip x, flip y)
+TVAR = {
+    "v0": ((2, 2), 1.2, 1.05, False, False),
+    "v1": ((3, 2), 1.05, 1.2, False, False),
+    "v2": ((3, 2), 1.1, 1.0, True, False),
+    "v3": ((2, 3), 1.3, 1.0, False, True),
+    "v4": ((4, 3), 1.2, 1.05, False, False),
+    "v5": ((2, 2), 1.0, 1.15, True, True),
+    "v6": ((3, 3), 1.25, 1.1, True, False),
+}
+
+
+def _tilted_ops():
+    vs = sorted(TVAR)
+    return [["m", v] for v in vs] + [["mside", 0, "v1"], ["mside", 1, "v2"]] + [["s", v] for v in vs]
+
+
+def _tgrid(v):
+    import porepy as pp
+
+    n, px, py, fx, fy = TVAR[v]
+    g = pp.StructuredTriangleGrid(np.array(n), np.array([2.0, 1.0]))
+    xy = g.nodes[:2].copy()
+    xy[0] = 2.0 * (xy[0] / 2.0) ** px
+    xy[1] = xy[1] ** py
+    if fx:
+        xy[0] = 2.0 - xy[0]
+    if fy:
+        xy[1] = 1.0 - xy[1]
+    nodes = _ORIG[:, None] + np.outer(_E1, xy[0]) + np.outer(_E2, xy[1])
+    h = pp.Grid(2, nodes, g.face_nodes.copy(), g.cell_faces.copy(), "tilted triangles " + v)
+    h.compute_geometry()
+    if abs(h.cell_volumes.sum() - 2.0) > 1e-12 or np.any(h.cell_volumes <= 0):
+        raise RuntimeError("harness: tilted triangulation does not cover the rectangle")
+    return h
+
+
+def _normal_sign(new_v, old_v):
+    """Sign combination of the two normals exactly as match_2d(new, old) computes them
+    (harness bookkeeping only: used as observation class)."""
+    import porepy as pp
+
+    a, b = _tgrid(new_v), _tgrid(old_v)
+    cc = np.mean(a.nodes, axis=1).reshape((3, 1))
+    n = pp.map_geometry.compute_normal(a.nodes - cc)
+    n_old = pp.map_geometry.compute_normal(b.nodes - cc)
+    return "n_old=+n" if float(n @ n_old) > 0 else "n_old=-n"
+
+
+def _run_tilted(case, out: Outcome) -> Outcome:
+    import porepy as pp
+    import scipy.sparse as sps
+    from porepy.grids.mortar_grid import MortarSides
+
+    vs = sorted(TVAR)
+    signs = {(a, b): _normal_sign(a, b) for a in vs for b in vs}
+    if len(set(signs.values())) != 2:
+        raise RuntimeError("harness: the tilted alphabet does not produce both sign combinations of the normals")
+    ops = [tuple(o) for o in _tilted_ops()]
+    first = tuple(case["first"])
+    SIDES = [MortarSides.LEFT_SIDE, MortarSides.RIGHT_SIDE]
+
+    def build(hist):
+        h = (first,) + tuple(hist)
+        st = _St()
+        st.hist = [list(o) for o in h]
+        g0 = _tgrid("v0")
+        nc = g0.num_cells
+        fc = sps.hstack([sps.identity(nc), sps.identity(nc)]).tocsc()
+        st.mg = pp.MortarGrid(2, {SIDES[0]: g0.copy(), SIDES[1]: g0.copy()}, fc)
+        st.nfaces = 2 * nc
+        st.side_v = ["v0", "v0"]
+        st.sec_v = "v0"
+        st.ncsec = nc
+        st.status, st.info, st.tags, st.pairs = "ok", None, [], []
+        for i, op in enumerate(h):
+            try:
+                if op[0] == "m":
+                    new = {s: _tgrid(op[1]) for s in SIDES}
+                    dig = [_grid_digest(g) for g in new.values()]
+                    st.pairs = [[op[1], st.side_v[k]] for k in range(2)]
+                    st.tags = [signs[(op[1], st.side_v[k])] for k in range(2)]
+                    st.mg.update_mortar(new)
+                    st.side_v = [op[1], op[1]]
+                elif op[0] == "mside":
+                    new = {SIDES[op[1]]: _tgrid(op[2])}
+                    dig = [_grid_digest(g) for g in new.values()]
+                    st.pairs = [[op[2], st.side_v[op[1]]]]
+                    st.tags = [signs[(op[2], st.side_v[op[1]])]]
+                    st.mg.update_mortar(new)
+                    st.side_v[op[1]] = op[2]
+                else:
+                    g = _tgrid(op[1])
+                    new = {0: g}
+                    dig = [_grid_digest(g)]
+                    st.pairs = [[st.side_v[k], op[1]] for k in range(2)]
+                    st.tags = [signs[(st.side_v[k], op[1])] for k in range(2)]
+                    st.mg.update_secondary(g)
+                    st.sec_v, st.ncsec = op[1], g.num_cells
+                if dig != [_grid_digest(g) for g in new.values()]:
+                    raise _Impure("update_mortar / update_secondary modified a grid passed as argument")
+            except Exception as e:
+                if i != len(h) - 1:
+                    raise RuntimeError(f"harness: non-final op {op} of {h} raised {e!r}")
+                st.status, st.info = "exc", repr(e)
+        return st
+
+    NAMES = TO + FROM
+
+    def mats(st):
+        return {nm: np.asarray(getattr(st.mg, nm)().todense()) for nm in NAMES}
+
+    def dig(st, which):
+        h = hashlib.blake2b(digest_size=12)
+        h.update(repr((st.side_v, st.sec_v)).encode())
+        for nm in which:
+            h.update(np.round(np.asarray(getattr(st.mg, nm)().todense()), 9).tobytes())
+        return h.hexdigest()
+
+    def check(st, hist, o: Outcome):
+        if st.status == "exc":
+            o.violate("replacement of mortar / secondary grid raised", base="tilted", history=st.hist, error=st.info)
+            o.ev("VIOLATION")
+            return
+        D = mats(st)
+        P = []
+        Pi, Pa, Si, Sa = (D[k] for k in TO)
+        ncs = [g.num_cells for g in st.mg.side_grids.values()]
+        if st.mg.num_cells != sum(ncs) or Pi.shape != (sum(ncs), st.nfaces) or Si.shape != (sum(ncs), st.ncsec):
+            P.append(f"shapes {Pi.shape}, {Si.shape} for {ncs} mortar cells, {st.nfaces} faces, {st.ncsec} cells")
+        else:
+            half = st.nfaces // 2
+            r0 = 0
+            for k, n in enumerate(ncs):
+                rows = slice(r0, r0 + n)
+                r0 += n
+                own = slice(0, half) if k == 0 else slice(half, st.nfaces)
+                other = slice(half, st.nfaces) if k == 0 else slice(0, half)
+                if np.any(Pi[rows, other] != 0) or np.any(Pa[rows, other] != 0):
+                    P.append(f"side {k}: coupled to the primary faces of the other side")
+                for what, v in (("primary_to_mortar_int column sums", Pi[rows, own].sum(axis=0)),
+                                ("primary_to_mortar_avg row sums", Pa[rows].sum(axis=1)),
+                                ("secondary_to_mortar_int column sums", Si[rows].sum(axis=0)),
+                                ("secondary_to_mortar_avg row sums", Sa[rows].sum(axis=1))):
+                    if np.max(np.abs(v - 1.0)) > TOL:
+                        P.append(f"side {k}: {what} in [{v.min():.6f}, {v.max():.6f}] != 1")
+            for a, b in (("mortar_to_primary_int", "primary_to_mortar_avg"), ("mortar_to_primary_avg", "primary_to_mortar_int"),
+                         ("mortar_to_secondary_int", "secondary_to_mortar_avg"), ("mortar_to_secondary_avg", "secondary_to_mortar_int")):
+                if D[a].shape != D[b].T.shape or not np.array_equal(D[a], D[b].T):
+                    P.append(f"{a} is not the transpose of {b}")
+            for nd in (2, 3):
+                for nm in NAMES:
+                    got = np.asarray(getattr(st.mg, nm)(nd).todense())
+                    if got.shape != (D[nm].shape[0] * nd, D[nm].shape[1] * nd) or not np.array_equal(got, np.kron(D[nm], np.eye(nd))):
+                        P.append(f"{nm}(nd={nd}) is not kron({nm}(1), I)")
+                        break
+            D2 = mats(st)
+            if any(not np.array_equal(D[k], D2[k]) for k in NAMES):
+                P.append("a second request of the projections on the same object differs")
+        if P:
+            o.violate("mortar projections do not conserve / preserve", base="tilted", history=st.hist, problems=P[:6],
+                      normals=st.tags, match_pairs=st.pairs)
+            o.ev("VIOLATION")
+            return
+        kind = "+".join(sorted(set(op[0] for op in st.hist)))
+        o.ev(f"tilted/{kind}/{'&'.join(sorted(set(st.tags)))}", ("tilted", dig(st, TO)))
+        if not o.samples and len(st.hist) >= 2:
+            o.samples.append({"base": "tilted", "history": st.hist, "normals": st.tags})
+
+    bfs(build=build, enabled=lambda st, hist: ops, canon=lambda st: dig(st, TO), check=check,
+        observe=lambda st: dig(st, FROM), max_depth=case["depth"] - 1, out=out, label="C26 tilted")
+    return out
+
+
 def run_case(case) -> Outcome:
     out = Outcome()
+    if case["base"] == "tilted":
+        return _run_tilted(case, out)
     base, depth = case["base"], case["depth"]
     first = case["first"]
     ops = _ops(base)
@@ -430,6 +622,10 @@ def run_case(case) -> Outcome:
 
 
 def known_finding(case, viol):
+    # GEOS floating-point overlay loses the overlap of a triangle nested in another one and
+    # touching it in vertices: pp.intersections.triangulations / match_2d(new=v5, old=v4)
+    if viol.get("base") == "tilted" and ["v5", "v4"] in (viol.get("match_pairs") or []):
+        return "C26-geos-nested-triangle-overlap"
     # primary grid replaced after the mortar grid was replaced: match_grids_along_1d_mortar
     # counts a primary face once per overlapping mortar cell
     h = viol.get("history") or []
